@@ -41,6 +41,37 @@ class Rule:
         self.count = 0
 
 
+class _Section:
+    def __init__(self, ck, label):
+        self.ck = ck
+        self.label = label
+
+    def __enter__(self):
+        return self
+
+    def __exit__(self, et, ev, tb):
+        if et is None:
+            return False
+        ck = self.ck
+        if issubclass(et, AnalysisError):
+            ck.analysis_errors.append((ev.rule, ev.reason))
+            ck.aborted_sections.append(self.label)
+            return True
+        if issubclass(et, NameError) and ck.aborted_sections:
+            ck.analysis_errors.append((self.label, f"section skipped: it needs a result of section "
+                                       f"{ck.aborted_sections[-1]}, which abstained ({ev})"))
+            ck.aborted_sections.append(self.label)
+            return True
+        if issubclass(et, Exception):
+            import traceback
+            last = traceback.format_exception(et, ev, tb, limit=-3)
+            ck.analysis_errors.append(('internal', f"section {self.label}: {et.__name__}: {ev} :: "
+                                       f"{[l.strip() for l in last[-3:]]}"))
+            ck.aborted_sections.append(self.label)
+            return True
+        return False
+
+
 class Check:
     def __init__(self, prop: str, tier: str, repo: str, seed: int = 0, quiet: bool = False):
         self.prop = prop
@@ -52,6 +83,7 @@ class Check:
         self.rules: dict[str, Rule] = {}
         self.obligations: list[dict] = []
         self.analysis_errors: list[tuple[str, str]] = []
+        self.aborted_sections: list[str] = []
         self.notes: list[str] = []
         self.undecided: list[str] = []
         self.explanation = ''
@@ -113,6 +145,13 @@ class Check:
         if rid not in self.rules:
             self.rules[rid] = Rule(rid, sentence, model, min_instances)
         return rid
+
+    def section(self, label: str):
+        """Context manager around one rule section of a property's run(): an abstention of the
+        section (AnalysisError: vanished anchor, unknown idiom) is recorded and the following
+        sections still run, so that a violation they find is reported (exit 1 wins over exit 2).
+        A section that needs a result of an abstained one (NameError) abstains too."""
+        return _Section(self, label)
 
     def need(self, rule: str, cond, reason: str) -> None:
         """An anchor / idiom precondition of the analysis itself (not of edzed)."""
